@@ -67,11 +67,14 @@ func TestConcurrentRestrictedUpdates(t *testing.T) {
 				}
 				wg.Wait()
 				w.Sync()
+				overlap := false
 				for g := 1; g < workers; g++ {
 					if t0[g].Before(t1[0]) && t0[0].Before(t1[g]) {
-						overlapped++
-						break
+						overlap = true
 					}
+				}
+				if overlap {
+					overlapped++
 				}
 				have := map[string]bool{}
 				for _, it := range refmodel.ItemsOf(f, lf.DataCopy(f.Fn)) {
@@ -90,7 +93,8 @@ func TestConcurrentRestrictedUpdates(t *testing.T) {
 				if items := refmodel.ItemsOf(f, lf.DataCopy(f.Fn)); !refmodel.OrderedByLeadingUintKeys(f, items) {
 					world.Fail(t, fmt.Sprintf("C02/unordered/partial/%s", f.Fn), "round %d: items not ordered by numeric identifier after concurrent partial updates: %v", r, refmodel.Multiset(items))
 				}
-				world.Record(world.Hash("concurrent-updates", fn, r), true, "concurrent-restricted-updates")
+				// non-trivial: another call overlapped the first one in time
+				world.Record(world.Hash("concurrent-updates", fn, r), overlap, "concurrent-restricted-updates")
 			}
 			world.Sample(map[string]any{"kind": "concurrent-restricted-updates", "function": string(fn), "rounds": rounds, "rounds_with_overlapping_calls": overlapped})
 			w.Teardown()
